@@ -216,7 +216,27 @@ def relex(toks, kt, construct):
             blk.append(Node(kt.k('RightBrace'), text=Str.lit('}')))
             kids.append(Node(kt.k('CodeBlock'), children=blk))
         elif re.match(r'^[A-Za-z_]', w):
-            kids.append(Node(kt.k('Ident'), text=Str.lit(w)))
+            node = Node(kt.k('Ident'), text=Str.lit(w))
+            # a chain of binary operators: operand (gap op gap operand)*, comments between them belong to the Binary node
+            while True:
+                r = q
+                while r < len(inner) and is_gap(inner[r]):
+                    r += 1
+                if not (r < len(inner) and inner[r] in (('w', '+'), ('w', '-'))):
+                    break
+                g1 = inner[q:r]
+                op = inner[r][1]
+                r += 1
+                r2 = r
+                while r2 < len(inner) and is_gap(inner[r2]):
+                    r2 += 1
+                if not (r2 < len(inner) and inner[r2][0] == 'w' and re.match(r'^[A-Za-z_]', inner[r2][1])):
+                    return None
+                g2 = inner[r:r2]
+                rhs = Node(kt.k('Ident'), text=Str.lit(inner[r2][1]))
+                node = Node(kt.k('Binary'), children=[node] + gap_nodes(kt, g1) + [Node(kt.k('Plus' if op == '+' else 'Minus'), text=Str.lit(op))] + gap_nodes(kt, g2) + [rhs])
+                q = r2 + 1
+            kids.append(node)
         else:
             return None
     if ws:
@@ -224,6 +244,26 @@ def relex(toks, kt, construct):
     if delim:
         kids.append(Node(kt.k('RightParen'), text=Str.lit(')')))
     return wrap(kt, construct, kids)
+
+
+def is_gap(t):
+    return t in (('s',), ('nl',)) or (t[0] == 'w' and t[1].startswith('/*'))
+
+
+def gap_nodes(kt, toks):
+    out = []
+    ws = ''
+    for t in toks:
+        if t in (('s',), ('nl',)):
+            ws += ' ' if t == ('s',) else '\n'
+            continue
+        if ws:
+            out.append(Node(kt.k('Space'), text=Str.lit(ws)))
+            ws = ''
+        out.append(Node(kt.k('BlockComment'), text=Str.lit(t[1])))
+    if ws:
+        out.append(Node(kt.k('Space'), text=Str.lit(ws)))
+    return out
 
 
 def text_of_str(s):
@@ -343,7 +383,7 @@ def source_of(info):
 
 
 def confirm(S, info):
-    body = content_source(info) if info.get('construct') == 'content' else source_of(info)
+    body = content_source(info) if info.get('construct') == 'content' else binary_source(info) if info.get('binary') else source_of(info)
     for src in ([body + '\n'] if not info.get('suppressed') else ['text ' + body + ' more\n']):
         if S.driver.call('erroneous', hexs(src))[1] == '1':
             continue
@@ -569,3 +609,98 @@ def content_source(info):
     for i, a in enumerate(info['atoms']):
         s += {'w': 'w%d' % i, 'hx': '#x%d' % i, 'hb': '#{a%d; b%d}' % (i, i)}[a] + info['gaps'][i + 1]
     return '#f[' + s + ']'
+
+
+# ---------------------------------------------------------------------------------------------------------------
+# chains of binary operators inside a list: `f(a + b - c)`
+
+B_GAPS = ['', ' ', '\n', ' /*c*/ ', '\n/*c*/\n', '/*c*/']
+
+
+def gap_tokens(g):
+    out = []
+    for part in re.findall(r'/\*.*?\*/| |\n', g):
+        out.append(('s',) if part == ' ' else ('nl',) if part == '\n' else ('w', part))
+    return out
+
+
+def explore_binary(S, operands=2, gaps=B_GAPS, constructs=('call', 'array')):
+    kt = T.KT
+    core = S.core
+    f_attr = S.find_fn(core, 'AttrStore::new')
+    f_expr = S.find_fn(core, 'PrettyPrinter::convert_expr')
+    found = []
+    tasks = []
+    for construct in constructs:
+        for n in range(2, operands + 1):
+            for gs in itertools.product(gaps, repeat=2 * (n - 1)):
+                for ops in itertools.product('+-', repeat=n - 1):
+                    if n > 2 and ops[0] != '+':
+                        continue
+
+                    def body(ctx, gs=gs, ops=ops, construct=construct, n=n):
+                        m = S.machine(core, STD, ctx)
+                        m.max_depth = 200
+                        node = Node(kt.k('Ident'), text=Str.lit('i0'))
+                        for k in range(1, n):
+                            node = Node(kt.k('Binary'), children=[node] + gap_nodes(kt, gap_tokens(gs[2 * k - 2])) +
+                                        [Node(kt.k('Plus' if ops[k - 1] == '+' else 'Minus'), text=Str.lit(ops[k - 1]))] +
+                                        gap_nodes(kt, gap_tokens(gs[2 * k - 1])) + [Node(kt.k('Ident'), text=Str.lit('i%d' % k))])
+                        kids = [Node(kt.k('LeftParen'), text=Str.lit('(')), node]
+                        if construct == 'array':
+                            kids.append(Node(kt.k('Comma'), text=Str.lit(',')))
+                        kids.append(Node(kt.k('RightParen'), text=Str.lit(')')))
+                        root = wrap(kt, construct, kids)
+                        cfg = Agg('Config', None, (2, z3.BitVec('cfg_width', 64), 2, False), pp.CFG_NAMES)
+                        c0_ = pp.context(mode=1)
+
+                        def describe(mdl):
+                            return dict(construct=construct, binary=True, gaps=list(gs), ops=list(ops), suppressed=model_bool(mdl, c0_.get('break_suppressed')))
+
+                        def convert(x):
+                            attrs = m.call_fn(f_attr, [x])
+                            pr, _ = pp.printer(m, cfg=cfg, attrs=attrs)
+                            return m.call_fn(f_expr, [pr, c0_, T.make_cast(m, x, 'Expr')])
+                        try:
+                            d1 = convert(root)
+                        except Panic as p:
+                            S.absorb(m)
+                            ctx.must_hold(False, 'C05:list-construct-panic', lambda mdl: dict(describe(mdl), panic=p.msg))
+                            return
+                        for mode, pf in (('broken', False), ('flat-where-possible', True)):
+                            render.prefer_flat = pf
+                            at1 = []
+                            render(d1, False, at1)
+                            t1 = text_of(at1)
+                            if t1 is None:
+                                continue
+                            root2 = relex(t1, kt, construct)
+                            if root2 is None:
+                                ctx.witness('output not read back (%s)' % mode)
+                                continue
+                            try:
+                                d2 = convert(root2)
+                            except Panic as p:
+                                ctx.must_hold(False, 'C05:list-construct-panic', lambda mdl, t1=t1: dict(describe(mdl), second_pass_input=show_tokens(t1), panic=p.msg))
+                                continue
+                            render.prefer_flat = pf
+                            at2 = []
+                            render(d2, False, at2)
+                            t2 = text_of(at2)
+                            ctx.must_hold(t2 == t1, 'C03:binary-chain-layout-is-not-a-fixed-point',
+                                          lambda mdl, t1=t1, t2=t2, mode=mode: dict(describe(mdl), layout=mode, first_pass=show_tokens(t1), second_pass=show_tokens(t2 or [])))
+                            ctx.witness('second pass run (%s)' % mode)
+                        S.absorb(m)
+                    src = 'i0' + ''.join(gs[2 * k - 2] + ops[k - 1] + gs[2 * k - 1] + 'i%d' % k for k in range(1, n))
+                    tasks.append(('twopass.binary.%s[%s]' % (construct, show(src)), 'two passes of the real printer over %s holding the chain %s' % (construct, show(src)), body, dict(operands=n)))
+    for ob, viol in S.explore_batch(tasks):
+        for lab, mdl, info in viol:
+            found.append((lab, info))
+    return found
+
+
+def binary_source(info):
+    n = len(info['ops']) + 1
+    gs, ops = info['gaps'], info['ops']
+    src = 'i0' + ''.join(gs[2 * k - 2] + ops[k - 1] + gs[2 * k - 1] + 'i%d' % k for k in range(1, n))
+    return '#f(%s)' % src if info['construct'] == 'call' else '#(%s,)' % src
